@@ -6,57 +6,76 @@ namespace ScriggoV.Compose
 /-- pointwise: whenever the left succeeds the right succeeds with the same result -/
 def OkLe {α β : Type} (R R' : α → Except Err β) : Prop := ∀ p x, R p = .ok x → R' p = .ok x
 
-theorem evalAtom_mono (E : Engine) {R R' : Nat → Except Err (Format × Bytes)} (hR : OkLe R R') :
-    ∀ k env a x, evalAtom E R k env a = .ok x → evalAtom E R' (k+1) env a = .ok x := by
+theorem scopeEnv_mono {S S' : Nat → Except Err Env} (hS : OkLe S S') (env : Env) (home : Option Nat)
+    (x : Env) (h : scopeEnv S env home = .ok x) : scopeEnv S' env home = .ok x := by
+  cases home with
+  | none => exact h
+  | some q => exact hS q x h
+
+theorem evalAtom_mono (E : Engine) {R R' : Nat → Except Err (Format × Bytes)}
+    {S S' : Nat → Except Err Env} (hR : OkLe R R') (hS : OkLe S S') :
+    ∀ k env args a x, evalAtom E R S k env args a = .ok x → evalAtom E R' S' (k+1) env args a = .ok x := by
+  have hrender : ∀ k k' env args ctx p v x, evalAtom E R S k env args (.render ctx p v) = .ok x →
+      evalAtom E R' S' k' env args (.render ctx p v) = .ok x := by
+    intro k k' env args ctx p v x h
+    cases k <;> cases k' <;>
+    · simp only [evalAtom] at h ⊢
+      cases hp : R p with
+      | error e => rw [hp] at h; cases h
+      | ok fc => rw [hp] at h; rw [hR p fc hp]; exact h
   intro k
   induction k with
   | zero =>
-    intro env a x h
+    intro env args a x h
     cases a with
     | text b => simpa [evalAtom] using h
     | showConst ctx b => simpa [evalAtom] using h
-    | call ctx m v => simp [evalAtom] at h
-    | render ctx p v =>
-      simp only [evalAtom] at h ⊢
-      cases hp : R p with
-      | error e => rw [hp] at h; cases h
-      | ok fc => rw [hp] at h; rw [hR p fc hp]; exact h
+    | showParam ctx i => simpa [evalAtom] using h
+    | call ctx m v cargs => simp [evalAtom] at h
+    | render ctx p v => exact hrender 0 1 env args ctx p v x h
   | succ n ih =>
-    intro env a x h
+    intro env args a x h
     cases a with
     | text b => simpa [evalAtom] using h
     | showConst ctx b => simpa [evalAtom] using h
-    | render ctx p v =>
-      simp only [evalAtom] at h ⊢
-      cases hp : R p with
-      | error e => rw [hp] at h; cases h
-      | ok fc => rw [hp] at h; rw [hR p fc hp]; exact h
-    | call ctx m v =>
+    | showParam ctx i => simpa [evalAtom] using h
+    | render ctx p v => exact hrender (n+1) (n+2) env args ctx p v x h
+    | call ctx m v cargs =>
       simp only [evalAtom] at h ⊢
       cases hl : lookup env m with
       | none => rw [hl] at h; cases h
       | some mv =>
-        obtain ⟨f, body, env'⟩ := mv
+        obtain ⟨f, ps, body, cenv, home⟩ := mv
         rw [hl] at h
         simp only at h ⊢
-        cases hb : mapE (evalAtom E R n env') body with
-        | error e => rw [hb] at h; cases h
-        | ok content =>
-          rw [hb] at h
-          rw [mapE_mono body (fun a _ y hy => ih env' a y hy) content hb]
-          exact h
+        split at h
+        · cases h
+        · rename_i hlen
+          rw [if_neg hlen]
+          cases hs : scopeEnv S cenv home with
+          | error e => rw [hs] at h; cases h
+          | ok senv =>
+            rw [hs] at h
+            rw [scopeEnv_mono hS cenv home senv hs]
+            simp only at h ⊢
+            cases hb : mapE (evalAtom E R S n senv (ps.zip cargs)) body with
+            | error e => rw [hb] at h; cases h
+            | ok content =>
+              rw [hb] at h
+              rw [mapE_mono body (fun a _ y hy => ih senv (ps.zip cargs) a y hy) content hb]
+              exact h
 
 theorem stepItem_mono (E : Engine) {R R' : Nat → Except Err (Format × Bytes)}
-    {X X' : Nat → Except Err Env} (hR : OkLe R R') (hX : OkLe X X') (n : Nat) (fmt : Format)
-    (st : St) (it : Item) (st' : St) (h : stepItem E R X n fmt st it = .ok st') :
-    stepItem E R' X' (n+1) fmt st it = .ok st' := by
+    {S S' X X' : Nat → Except Err Env} (hR : OkLe R R') (hS : OkLe S S') (hX : OkLe X X') (n : Nat)
+    (fmt : Format) (st : St) (it : Item) (st' : St) (h : stepItem E R S X n fmt st it = .ok st') :
+    stepItem E R' S' X' (n+1) fmt st it = .ok st' := by
   cases it with
   | atom a =>
     simp only [stepItem] at h ⊢
-    cases ha : evalAtom E R n st.env a with
+    cases ha : evalAtom E R S n st.env [] a with
     | error e => rw [ha] at h; cases h
-    | ok x => rw [ha] at h; rw [evalAtom_mono E hR n st.env a x ha]; exact h
-  | macroDecl m fm body => exact h
+    | ok x => rw [ha] at h; rw [evalAtom_mono E hR hS n st.env [] a x ha]; exact h
+  | macroDecl m fm ps body => exact h
   | extends_ p => exact h
   | import_ q =>
     simp only [stepItem] at h ⊢
@@ -65,54 +84,66 @@ theorem stepItem_mono (E : Engine) {R R' : Nat → Except Err (Format × Bytes)}
     | ok ex => rw [hq] at h; rw [hX q ex hq]; exact h
 
 theorem runItems_mono (E : Engine) {R R' : Nat → Except Err (Format × Bytes)}
-    {X X' : Nat → Except Err Env} (hR : OkLe R R') (hX : OkLe X X') (n : Nat) (fmt : Format)
-    (items : List Item) (out : Bytes) (h : runItems E R X n fmt items = .ok out) :
-    runItems E R' X' (n+1) fmt items = .ok out := by
+    {S S' X X' : Nat → Except Err Env} (hR : OkLe R R') (hS : OkLe S S') (hX : OkLe X X') (n : Nat)
+    (fmt : Format) (items : List Item) (out : Bytes) (h : runItems E R S X n fmt items = .ok out) :
+    runItems E R' S' X' (n+1) fmt items = .ok out := by
   unfold runItems at h ⊢
-  cases hf : foldE (stepItem E R X n fmt) ⟨[], []⟩ items with
+  cases hf : foldE (stepItem E R S X n fmt) ⟨[], []⟩ items with
   | error e => rw [hf] at h; cases h
   | ok st =>
     rw [hf] at h
-    obtain ⟨r', h1, h2⟩ := foldE_rel (Rel := fun (a b : St) => a = b)
-      (f := stepItem E R X n fmt) (g := stepItem E R' X' (n+1) fmt) items
-      (fun s t hst a _ s' hs' => ⟨s', by subst hst; exact stepItem_mono E hR hX n fmt s a s' hs', rfl⟩)
-      ⟨[], []⟩ ⟨[], []⟩ rfl st hf
-    subst h2
-    rw [h1]; exact h
+    rw [foldE_mono items (fun s a _ s' hs' => stepItem_mono E hR hS hX n fmt s a s' hs') _ st hf]
+    exact h
 
-theorem exportStep_mono {X X' : Nat → Except Err Env} (hX : OkLe X X') (fmt : Format) (st : ISt)
-    (it : Item) (st' : ISt) (h : exportStep X fmt st it = .ok st') :
-    exportStep X' fmt st it = .ok st' := by
+theorem passStep_mono {X X' : Nat → Except Err Env} (hX : OkLe X X') (q : Nat) (fmt : Format) (st : ISt)
+    (it : Item) (st' : ISt) (h : passStep X q fmt st it = .ok st') :
+    passStep X' q fmt st it = .ok st' := by
   cases it with
   | atom a => exact h
-  | macroDecl m fm body => exact h
+  | macroDecl m fm ps body => exact h
   | extends_ p => exact h
-  | import_ q =>
-    simp only [exportStep] at h ⊢
-    cases hq : X q with
+  | import_ q' =>
+    simp only [passStep] at h ⊢
+    cases hq : X q' with
     | error e => rw [hq] at h; cases h
-    | ok ex => rw [hq] at h; rw [hX q ex hq]; exact h
+    | ok ex => rw [hq] at h; rw [hX q' ex hq]; exact h
 
-theorem exportsOf_mono (files : List File) :
-    ∀ n, OkLe (exportsOf files n) (exportsOf files (n+1)) := by
+theorem expOf_mono {a b : Except Err ISt} (h : ∀ st, a = .ok st → b = .ok st) (x : Env)
+    (hx : expOf a = .ok x) : expOf b = .ok x := by
+  cases a with
+  | error e => cases hx
+  | ok st => rw [h st rfl]; exact hx
+
+theorem locOf_mono {a b : Except Err ISt} (h : ∀ st, a = .ok st → b = .ok st) (x : Env)
+    (hx : locOf a = .ok x) : locOf b = .ok x := by
+  cases a with
+  | error e => cases hx
+  | ok st => rw [h st rfl]; exact hx
+
+theorem passOf_mono (files : List File) :
+    ∀ n, OkLe (passOf files n) (passOf files (n+1)) := by
   intro n
   induction n with
-  | zero => intro q ex h; simp [exportsOf] at h
+  | zero => intro q st h; simp [passOf] at h
   | succ n ih =>
-    intro q ex h
-    simp only [exportsOf] at h
-    rw [exportsOf]
+    intro q st h
+    rw [passOf] at h
+    rw [passOf]
     cases hf : files[q]? with
     | none => rw [hf] at h; cases h
     | some f =>
       rw [hf] at h
       simp only at h ⊢
-      cases hfo : foldE (exportStep (exportsOf files n) f.format) ⟨[], []⟩ f.items with
-      | error e => rw [hfo] at h; cases h
-      | ok st =>
-        rw [hfo] at h
-        rw [foldE_mono f.items (fun s a _ s' hs' => exportStep_mono ih f.format s a s' hs') _ st hfo]
-        exact h
+      exact foldE_mono f.items (fun s a _ s' hs' =>
+        passStep_mono (fun q' x hx => expOf_mono (ih q') x hx) q f.format s a s' hs') _ st h
+
+theorem exportsOf_mono (files : List File) (n : Nat) :
+    OkLe (exportsOf files n) (exportsOf files (n+1)) :=
+  fun q x hx => expOf_mono (passOf_mono files n q) x hx
+
+theorem scopeOf_mono (files : List File) (n : Nat) :
+    OkLe (scopeOf files n) (scopeOf files (n+1)) :=
+  fun q x hx => locOf_mono (passOf_mono files n q) x hx
 
 /-- **fuel sufficiency**: more fuel never changes a result -/
 theorem runFile_mono (E : Engine) (files : List File) :
@@ -125,6 +156,7 @@ theorem runFile_mono (E : Engine) (files : List File) :
     have hR : OkLe (fun q => runFile E files n false q) (fun q => runFile E files (n+1) false q) :=
       fun q x hx => ih false q x hx
     have hX := exportsOf_mono files n
+    have hS := scopeOf_mono files n
     rw [runFile] at h
     rw [runFile]
     cases hf : files[p]? with
@@ -147,19 +179,19 @@ theorem runFile_mono (E : Engine) (files : List File) :
             · cases h
             · rename_i hok
               simp only [hok]
-              cases hi : runItems E (fun q => runFile E files n false q) (exportsOf files n) n lay.format
-                  (.import_ p :: lay.items) with
+              cases hi : runItems E (fun q => runFile E files n false q) (scopeOf files n)
+                  (exportsOf files n) n lay.format (.import_ p :: lay.items) with
               | error e => rw [hi] at h; cases h
               | ok out =>
                 rw [hi] at h
-                rw [runItems_mono E hR hX n lay.format _ out hi]
+                rw [runItems_mono E hR hS hX n lay.format _ out hi]
                 exact h
-      · cases hi : runItems E (fun q => runFile E files n false q) (exportsOf files n) n f.format
-            f.items with
+      · cases hi : runItems E (fun q => runFile E files n false q) (scopeOf files n)
+            (exportsOf files n) n f.format f.items with
         | error e => rw [hi] at h; cases h
         | ok out =>
           rw [hi] at h
-          rw [runItems_mono E hR hX n f.format _ out hi]
+          rw [runItems_mono E hR hS hX n f.format _ out hi]
           exact h
 
 theorem runFile_mono_le (E : Engine) (files : List File) {n n' : Nat} (hle : n ≤ n') (main : Bool)
